@@ -39,13 +39,13 @@ vars == <<phase, srcs, pending, prof, symSeen, opts, lines, lastReport, usedForR
 Init == /\ phase = "fetch"
         /\ srcs \in {<<[name |-> "s1", ok |-> o1, samples |-> c1], [name |-> "s2", ok |-> o2, samples |-> c2]>> :
                         o1, o2 \in BOOLEAN, c1, c2 \in Contents}
-        /\ pending = {1, 2} /\ prof = <<>> /\ symSeen = 0 /\ opts = NoOpts /\ lines = 0
-        /\ lastReport = {} /\ usedForReport = <<>>
+        /\ pending = {1, 2} /\ prof = NoProf /\ symSeen = 0 /\ opts = NoOpts /\ lines = 0
+        /\ lastReport = {} /\ usedForReport = NoProf
 FetchReturn(i) == /\ phase = "fetch" /\ i \in pending /\ pending' = pending \ {i}
                   /\ UNCHANGED <<phase, srcs, prof, symSeen, opts, lines, lastReport, usedForReport>>
 Merge == /\ phase = "fetch" /\ pending = {}
          /\ IF \E i \in DOMAIN srcs : srcs[i].ok
-            THEN phase' = "sym" /\ prof' = MergedOf(srcs)
+            THEN phase' = "sym" /\ prof' = Prof(MergedOf(srcs), {}, {})
             ELSE phase' = "error" /\ UNCHANGED prof
          /\ UNCHANGED <<srcs, pending, symSeen, opts, lines, lastReport, usedForReport>>
 Symbolize == /\ phase = "sym" /\ symSeen' = symSeen + 1 /\ phase' = "session"
@@ -61,17 +61,17 @@ Assign(a) == /\ phase = "session" /\ lines < MaxLines /\ lines' = lines + 1
 Report == /\ phase = "session" /\ lines < MaxLines /\ lines' = lines + 1
           /\ usedForReport' = prof
           /\ lastReport' = TopRows(prof, opts)
-          /\ prof' = IF Broken = "reportFiltersInPlace" THEN [st \in Kept(prof, opts) |-> prof[st]] ELSE prof
+          /\ prof' = IF Broken = "reportFiltersInPlace" THEN [prof EXCEPT !.bag = [st \in Kept(prof, opts) |-> prof.bag[st]]] ELSE prof
           /\ UNCHANGED <<phase, srcs, pending, symSeen, opts>>
 Quit == phase = "session" /\ phase' = "done" /\ UNCHANGED <<srcs, pending, prof, symSeen, opts, lines, lastReport, usedForReport>>
 Next == (\E i \in 1..2 : FetchReturn(i)) \/ Merge \/ Symbolize \/ (\E a \in Assignments : Assign(a)) \/ Report \/ Quit
 Spec == Init /\ [][Next]_vars
 
-ReportsFromPristine == usedForReport # <<>> => SameBag(usedForReport, MergedOf(srcs))
+ReportsFromPristine == usedForReport # NoProf => SameBag(usedForReport.bag, MergedOf(srcs))
 SymAfterAllFetches == symSeen > 0 => pending = {}
 SymOnce == symSeen <= 1 /\ (phase \in {"session", "done"} => symSeen = 1)
 ErrorOnlyIfNothingFetched == phase = "error" <=> (pending = {} /\ phase # "fetch" /\ ~\E i \in DOMAIN srcs : srcs[i].ok)
 \* cum >= flat for non-negative values, flat of all functions sums to the kept total
 RowsConsistent == \A r \in lastReport : r.cum >= r.flat
-PristineNeverChanges == [][prof # <<>> => prof' = prof]_vars
+PristineNeverChanges == [][prof # NoProf => prof' = prof]_vars
 =============================================================================
